@@ -144,24 +144,46 @@ static void dtor_temporaries(int s) {
   }
 }
 
+/* reuse=1: the first destructor of an execution that finds an arena address released earlier (by the sweep it runs in, or by
+** an explicit delete) allocates a new ROOT object there and keeps it - as a destructor that registers something would when
+** the allocator hands a just-freed block back.  The new root must stay untouched until the program deletes it. */
+static int dtor_reuse, reuse_done, reuse_slot = -1;
+static void dtor_reuse_alloc(int self_slot) {
+  if (!dtor_reuse || reuse_done || stopped || !gc) return;
+  if (strcmp(lastkind, "teardown") == 0) return;   /* a root made while the collector is being torn down could never be deleted */
+  for (int s = 0; s < A; s++) {
+    if (s == self_slot || S[s].kind == K_NONE || S[s].dealloc < 1 || S[s].fin < 1) continue;
+    /* slot s was finalised and released: take its address for a new root */
+    int saved = alloc_at;
+    memset(&S[s], 0, sizeof S[s]); S[s].kind = K_ROOT; S[s].child = -1;
+    alloc_at = s; reuse_done = 1; reuse_slot = s;
+    new_root(Cell);
+    alloc_at = saved;
+    return;
+  }
+}
+
 static void Cell_Del(var self) {
   struct Cell* c = self;
   int s = slot_of(self);
   if (s < 0) { lfail("destructor on a pointer that is not an arena object"); return; }
+  if (s == reuse_slot && S[s].kind == K_ROOT && !S[s].deleted) lfail("the root object a destructor allocated at the address of an object released earlier (#%d) was finalised although nobody deleted it", s);
   S[s].fin++;
   if (S[s].fin > 1) { lfail("object #%d finalised twice", s); return; }
   if (S[s].kind == K_NONE) { lfail("destructor on free slot #%d", s); return; }
   if (c->canary != CANARY) lfail("object #%d corrupted before finalisation", s);
   dtor_temporaries(s);
+  dtor_reuse_alloc(s);
   if (c->owner && c->child) {
     int cs = slot_of(c->child);
-    if (cs >= 0) S[cs].deleted = 1;
+    /* the owner means the object it was linked to - not a new object a destructor has meanwhile put at that address */
+    if (cs >= 0 && !(cs == reuse_slot && reuse_done)) S[cs].deleted = 1;
     del(c->child);
     if (cs >= 0 && stopped && S[cs].fin == 0) owner_del_ignored = 1;
   }
   if (c->owner2 && c->child2) {
     int cs = slot_of(c->child2);
-    if (cs >= 0) S[cs].deleted = 1;
+    if (cs >= 0 && !(cs == reuse_slot && reuse_done)) S[cs].deleted = 1;
     del(c->child2);
   }
 }
@@ -175,7 +197,7 @@ var Cell = Cello(Cell,
 static var* stack_bottom;   /* address of a local in main: the collector's stack bottom */
 
 static void reset(void) {
-  temp_sp = 0;
+  temp_sp = 0; reuse_done = 0; reuse_slot = -1;
   memset(S, 0, sizeof S);
   for (int s = 0; s < NSLOT; s++) S[s].child = -1;
   ledger_err[0] = 0; stopped = 0; alloc_at = -1; exec_bad = 0; owner_del_ignored = 0;
@@ -521,6 +543,11 @@ static int rootsleft;   /* rootsleft=1: the program ends without deleting its ro
                         ** sweep skips roots) - every other managed object must still be finalised exactly once */
 static void cleanup(void) {
   const char* k0 = lastkind;
+  if (reuse_slot >= 0 && !exec_bad && S[reuse_slot].kind == K_ROOT && !S[reuse_slot].deleted && (S[reuse_slot].fin || S[reuse_slot].dealloc)) {
+    const char* k1 = lastkind; lastkind = "destructor-allocated-root";
+    vf_violation(L("finalised-behind-its-owners-back"), NULL, "a root object allocated by a destructor at the address of an object released earlier was finalised %d / released %d times although nobody deleted it", S[reuse_slot].fin, S[reuse_slot].dealloc);
+    lastkind = k1; exec_bad = 1;
+  }
   /* in contract: root, raw and stop-window objects are released explicitly before teardown */
   if (stopped) { start(gc); stopped = 0; }
   int progress = 1;
@@ -701,6 +728,9 @@ static void own_graphs(void) {
       int owners[8], no = 0;
       for (int i = 0; i < n; i++) for (int k = 0; k < 2; k++) if (tgt[i][k] == t) owners[no++] = i;
       if (no > 1) for (int q = 0; q < no; q++) if (owners[q] != t && !og_reach(n, tgt, t, owners[q])) ok = 0;
+      /* with reuse=1 an object has at most one owner: the second owner's delete of an object the first one already
+      ** released is a double delete by the program (ignored by the collector only as long as the address stays free) */
+      if (dtor_reuse && no > 1) ok = 0;
     }
     if (!ok) continue;
     vf.states++;
@@ -889,6 +919,7 @@ int main(int argc, char** argv) {
   propC06 = vf_param_is("prop", "C06", "C17");
   if (vf_param_is("residues", "B", "A")) residue = residueB;
   rootsleft = (int)vf_param_i("rootsleft", 0);
+  dtor_reuse = (int)vf_param_i("reuse", 0);
   dtor_temps = (int)vf_param_i("temps", 0); if (dtor_temps > 4) dtor_temps = 4;
 
   size_t need = 8L * MODW * (20 + NSPARE + 4) + 8L * MODW + 4096;
